@@ -3,6 +3,8 @@ package main
 // SMT side of the verifier: sorts, background (passive form), obligations, slicing, solver portfolio.
 
 import (
+	"strconv"
+	"crypto/sha256"
 	"bytes"
 	"context"
 	"fmt"
@@ -59,6 +61,7 @@ type Obl struct {
 }
 
 type Result struct {
+	Shared string // proof shared with this alpha-equivalent obligation
 	Obl     *Obl
 	Res     string // unsat | sat | unknown | timeout | error
 	Backend string
@@ -531,8 +534,51 @@ func solveOne(o *Obl, timeoutS int) Result {
 	return r
 }
 
+var genSymRe = regexp.MustCompile(`[^\s()]+![0-9]+`)
+
+// canonical: the query with every generated symbol renamed by order of first appearance. Two obligations with the same
+// canonical text are the same formula up to the names of their constants (the varint decode loops of generated code
+// produce hundreds of those), so one answer serves all of them.
+func canonical(script string) string {
+	names := map[string]string{}
+	return genSymRe.ReplaceAllStringFunc(script, func(m string) string {
+		if r, ok := names[m]; ok {
+			return r
+		}
+		r := "s" + strconv.Itoa(len(names))
+		names[m] = r
+		return r
+	})
+}
+
 func solveAll(obls []*Obl, timeoutS int, workers int) []Result {
 	res := make([]Result, len(obls))
+	// group alpha-equivalent queries
+	rep := make([]int, len(obls)) // representative index
+	groups := map[[32]byte]int{}
+	{
+		var wg sync.WaitGroup
+		keys := make([][32]byte, len(obls))
+		sem := make(chan struct{}, workers)
+		for i := range obls {
+			wg.Add(1)
+			sem <- struct{}{}
+			go func(i int) {
+				defer wg.Done()
+				defer func() { <-sem }()
+				keys[i] = sha256.Sum256([]byte(obls[i].Expect + "\x00" + canonical(obls[i].script(""))))
+			}(i)
+		}
+		wg.Wait()
+		for i := range obls {
+			if j, ok := groups[keys[i]]; ok {
+				rep[i] = j
+			} else {
+				groups[keys[i]] = i
+				rep[i] = i
+			}
+		}
+	}
 	var wg sync.WaitGroup
 	ch := make(chan int)
 	for w := 0; w < workers; w++ {
@@ -545,10 +591,37 @@ func solveAll(obls []*Obl, timeoutS int, workers int) []Result {
 		}()
 	}
 	for i := range obls {
-		ch <- i
+		if rep[i] == i {
+			ch <- i
+		}
 	}
 	close(ch)
 	wg.Wait()
+	// members: share a proof, re-solve anything else (models name the member's own constants)
+	var wg2 sync.WaitGroup
+	ch2 := make(chan int)
+	for w := 0; w < workers; w++ {
+		wg2.Add(1)
+		go func() {
+			defer wg2.Done()
+			for i := range ch2 {
+				res[i] = solveOne(obls[i], timeoutS)
+			}
+		}()
+	}
+	for i := range obls {
+		if rep[i] == i {
+			continue
+		}
+		r := res[rep[i]]
+		if r.Res == "unsat" && obls[i].Expect != "sat" {
+			res[i] = Result{Obl: obls[i], Res: "unsat", Backend: r.Backend, Shared: obls[rep[i]].Name}
+			continue
+		}
+		ch2 <- i
+	}
+	close(ch2)
+	wg2.Wait()
 	return res
 }
 
